@@ -470,17 +470,16 @@ Proof.
     destruct Hfree as [F1 F2]; [rewrite H; reflexivity|].
     unfold resp_th, onway, lock_pc in Hr |- *; rewrite ?H in Hr; dsj; pc_inj; gts;
       try solve [right; right; left; auto].
-    Show.
-    left. split; [auto 7|]. intros _ [C|(c & unl & C)].
-    + rewrite Hcq in C. lia.
-    + apply in_app_or in C. destruct C as [C|[C|[]]]; [eapply Hnoenq; eauto|discriminate].
+    all: left; (split; [auto 7|]); intros _ [C|(c & unl & C)];
+      [rewrite Hcq in C; lia
+      |apply in_app_or in C; destruct C as [C|[C|[]]]; [eapply Hnoenq; eauto|discriminate]].
   - (* feread_ok *)
     unfold resp_th, onway, lock_pc in Hr |- *; rewrite ?H in Hr; dsj; pc_inj; gts;
       try solve [right; right; left; auto].
-    right; left. grel_cases gt; rewrite ?H in Hg; dsj; pc_inj; try discriminate; eauto 8.
+    all: right; left; grel_cases gt; rewrite ?H in Hg; dsj; pc_inj; try discriminate; eauto 8.
   - (* feread_wait *)
     unfold resp_th, onway, lock_pc in Hr |- *; rewrite ?H in Hr; dsj; pc_inj; gts;
-      try solve [right; right; left; auto]. congruence.
+      try solve [right; right; left; auto]; congruence.
   - (* cbenq *)
     destruct q as [|c]; [|exfalso; eapply (Hnq i c unl); eauto].
     unfold resp_th in Hr |- *. gts.
@@ -489,7 +488,7 @@ Proof.
     + left. rewrite Hcq in C. exact C.
     + right. exists c, u. destruct unl.
       * apply in_upd in C. destruct C as [C|C]; [discriminate|exact C].
-      * eapply in_remove_nth; eauto.
+      * exact (in_remove_nth _ _ _ C).
   - (* cbunl *)
     match goal with U : urel _ _ _ _ _ _ _ |- _ =>
       destruct (urel_frame _ _ _ _ _ _ _ U Hth) as [G1 _];
@@ -501,9 +500,88 @@ Proof.
     + destruct Hr as [[A B]|Hr]; [|right; exact Hr].
       left. split; [exact A|]. intros S [C|(c & u0 & C)]; apply (B S).
       * left. rewrite Hcq in C. exact C.
-      * right. exists c, u0. rewrite Hcbs in C. eapply in_cbs_next; eauto.
+      * right. exists c, u0. rewrite Hcbs in C. exact (in_cbs_next _ _ _ _ _ C).
     + destruct Hr as [[A0 B]|Hr].
       * left. split; [|intros; discriminate]. unfold onway, lock_pc in *. rewrite A in A0.
         dsj; pc_inj; try discriminate; auto.
       * right. rewrite A in Hr. unfold onway in Hr. dsj; pc_inj; try discriminate; eauto 8.
 Qed.
+
+Lemma cqcount_other s t e s' z :
+  Inv s -> fstep s (t, e) = Some s' -> z <> t -> (cqcount s' z <= cqcount s z)%nat.
+Proof.
+  intros I H Hz. destruct (fstep_thread _ _ _ _ H) as [th Hth].
+  pose proof (i1_thr _ (inv_1 _ I) _ _ Hth) as T.
+  pose proof (step_srel _ _ _ _ _ Hth (t1_pc _ T) H) as R.
+  inversion R; subst; clear R; unfold cqcount at 1; gts; fold (cqcount s z); try lia.
+  - match goal with U : urel _ _ _ _ _ _ _ |- _ => rewrite (urel_cqs _ _ _ _ _ _ _ U) end. fold (cqcount s z). lia.
+  - (* sigdeq *)
+    assert (Hc : (c < List.length (cqs s))%nat).
+    { rewrite (i2_len _ (inv_2 _ I)). eapply fe_pc_sigdeq. rewrite <- H0. apply (t1_pc _ T). }
+    pose proof (cqcount_setq s c r z Hc) as E. cbn [getq] in H1. rewrite H1 in E.
+    change (qcount (x :: r) z) with (b2n (Nat.eqb x z) + qcount r z)%nat in E.
+    change (sumf (fun q => qcount q z) (upd (cqs s) c r)) with (cqcount (setq s (QC c) r) z). lia.
+  - (* cbenq *)
+    destruct q as [|c]; gts; [fold (cqcount s z); lia|].
+    pose proof (nbadcb_nth _ _ _ H0 (t1_cb _ T)) as Hfe. destruct (fe_cb_qc _ _ Hfe) as [Hc2 _].
+    assert (Hc : (c < List.length (cqs s))%nat) by (rewrite (i2_len _ (inv_2 _ I)); exact Hc2).
+    pose proof (cqcount_setq s c (getq s (QC c) ++ [t]) z Hc) as E. cbn [getq] in E.
+    rewrite qcount_app in E.
+    change (qcount [t] z) with (b2n (Nat.eqb t z) + 0)%nat in E. cbn [getq].
+    change (sumf (fun q => qcount q z) (upd (cqs s) c (nth c (cqs s) [] ++ [t])))
+      with (cqcount (setq s (QC c) (nth c (cqs s) [] ++ [t])) z).
+    destruct (Nat.eqb_spec t z); [congruence|]. cbn [b2n] in E. lia.
+  - match goal with U : urel _ _ _ _ _ _ _ |- _ => rewrite (urel_cqs _ _ _ _ _ _ _ U) end. fold (cqcount s z). lia.
+Qed.
+
+Lemma resp_other s t e s' z gz thz st :
+  Inv s -> fstep s (t, e) = Some s' -> z <> t -> get_thread s z = Some thz ->
+  resp_th s st z gz thz ->
+  exists thz', get_thread s' z = Some thz' /\ resp_th s' st z gz thz'.
+Proof.
+  intros I H Hz Gz Hr.
+  destruct (step_thread_effect _ _ _ _ _ _ I H Gz) as (thz' & G' & X).
+  destruct (X Hz) as (Eo & Ec & Em). exists thz'. split; [exact G'|].
+  pose proof (cqcount_other _ _ _ _ z I H Hz) as Hle.
+  unfold resp_th in *. destruct Em as [Em|(k & A & Em)].
+  - rewrite Em. destruct Hr as [[A B]|Hr]; [|right; exact Hr].
+    left. split; [exact A|]. intros S [C|(c & u & C)]; apply (B S).
+    + left. lia.
+    + right. exists c, u. rewrite <- Ec. exact C.
+  - rewrite Em. rewrite A in Hr. destruct Hr as [[A0 B]|Hr].
+    + left. split; [|intros; discriminate]. unfold onway, lock_pc in *.
+      dsj; pc_inj; try discriminate; auto.
+    + right. dsj; pc_inj; try discriminate; eauto 8.
+Qed.
+
+Lemma Tok_base_step g t e s' gt th :
+  Inv (base g) -> GRel g -> Tok g ->
+  nth_error (gth g) t = Some gt -> get_thread (base g) t = Some th ->
+  (e = ETick \/ exists i, e = ECbTick i) ->
+  fstep (base g) (t, e) = Some s' -> Tok (set_base g s').
+Proof.
+  intros I GR TK Hgt Hth He F. set (s := base g) in *.
+  destruct (gr_thr _ GR _ _ _ Hgt Hth) as [Hg Hw].
+  pose proof (i1_thr _ (inv_1 _ I) _ _ Hth) as T.
+  pose proof (step_srel _ _ _ _ _ Hth (t1_pc _ T) F) as R.
+  destruct (srel_self _ _ _ _ _ R Hth) as [th' Hth'].
+  intros st Hv Hf Hq. cbn [base set_base gth] in *.
+  (* generic continuation: the premise held before the step, with witness z *)
+  assert (Hgen : festat s = st -> nth (Z.to_nat st) (cqs s) [] <> [] ->
+            (forall z gz thz, z = t -> nth_error (gth g) z = Some gz -> get_thread s z = Some thz ->
+               resp_th s st z gz thz -> resp_th s' st t gt th') ->
+            exists z, Resp (set_base g s') st z).
+  { intros Hf0 Hq0 Hself. destruct (TK st Hv Hf0 Hq0) as (z & gz & thz & A & B & C).
+    destruct (Nat.eq_dec z t) as [->|Hz].
+    - exists t, gt, th'. cbn. split; [exact Hgt|split; [exact Hth'|]]. eapply Hself; eauto.
+    - destruct (resp_other _ _ _ _ _ _ _ _ I F Hz B C) as (thz' & B' & C').
+      exists z, gz, thz'. cbn. auto. }
+  destruct (valid_st_idx _ Hv) as [Hlt Hidx].
+  inversion R; subst; try (destruct He as [He|[i0 He]]; discriminate He).
+  (* steps that leave status and condition queues alone *)
+  all: try (apply Hgen; [gts; exact Hf|gts; exact Hq|];
+            intros z gz thz -> Gz Bz Cz; rewrite Hgt in Gz; inv Gz; rewrite Hth in Bz; inv Bz;
+            eapply (resp_self _ _ _ _ _ _ _ _ I Hth Hg R He Hth'); gts; auto;
+            [intros c0 Hc0; congruence|intros i0 c0 u0 Hc0 E0; discriminate E0]; fail).
+  Show.
+Abort.
